@@ -128,7 +128,7 @@ def run(chk):
         r17_2(chk, mod, data, params)
 
     # ------------------------------------------------------------------ R17.3
-    chk.rule("R17.3", "every minus-one subscript of a shipped element table is dominated by a guard 1 <= n <= len(table)", 6)
+    chk.rule("R17.3", "every minus-one subscript of a shipped element table is dominated by a guard 1 <= n <= len(table)", 3)
     if chk.want("R17.3"):
         r17_3(chk, mod, NROWS, len(colors))
 
@@ -151,7 +151,7 @@ def run(chk):
     # ------------------------------------------------------------------ R17.7
     chk.rule("R17.7", "formula counts every atom once; column helpers read the column they are named after", 8)
     if chk.want("R17.7"):
-        r17_7(chk, mod, params)
+        r17_7(chk, mod, params, NROWS)
 
     chk.assume("radii and masses are 'as tabulated': only positivity is checked, not their values")
     chk.assume("str methods are evaluated on the table keys by the checker (finite table), chmpy code is not executed")
@@ -327,8 +327,52 @@ def chain_from_any_root(key: P):
 TABLES = ("_ELEMENT_DATA", "_EL_COLORS")
 
 
+def derived_tables(mod):
+    """{name: (source table, column or None)} for module-level tables built row by row from a shipped table:
+    NAME = [x[k] for x in _ELEMENT_DATA] / np.array([...], ...) / tuple(...): same number of rows, same order."""
+    out = {}
+    for st in mod.tree.body:
+        if not (isinstance(st, ast.Assign) and len(st.targets) == 1 and isinstance(st.targets[0], ast.Name)):
+            continue
+        v = st.value
+        while isinstance(v, ast.Call) and v.args and isinstance(v.func, (ast.Name, ast.Attribute)) and \
+                (v.func.id if isinstance(v.func, ast.Name) else v.func.attr) in ("array", "asarray", "tuple", "list"):
+            v = v.args[0]
+        if isinstance(v, (ast.ListComp, ast.GeneratorExp)) and len(v.generators) == 1 and not v.generators[0].ifs \
+                and isinstance(v.generators[0].iter, ast.Name) and v.generators[0].iter.id in TABLES \
+                and isinstance(v.generators[0].target, ast.Name):
+            var = v.generators[0].target.id
+            colk = None
+            if isinstance(v.elt, ast.Subscript) and isinstance(v.elt.value, ast.Name) and v.elt.value.id == var \
+                    and isinstance(v.elt.slice, ast.Constant) and isinstance(v.elt.slice.value, int):
+                colk = v.elt.slice.value
+            out[st.targets[0].id] = (v.generators[0].iter.id, colk)
+    return out
+
+
+def table_params(mod, tables):
+    """{function: {parameter: set of tables}} for module functions that are handed a table by name."""
+    out = {}
+    for qual, fn in mod.funcs.items():
+        for node in ast.walk(fn):
+            if isinstance(node, ast.Call) and isinstance(node.func, ast.Name) and node.func.id in mod.funcs:
+                callee = mod.funcs[node.func.id]
+                names = [a.arg for a in callee.args.args]
+                for i, arg in enumerate(node.args):
+                    if isinstance(arg, ast.Name) and arg.id in tables and i < len(names):
+                        out.setdefault(node.func.id, {}).setdefault(names[i], set()).add(arg.id)
+                for kw in node.keywords:
+                    if isinstance(kw.value, ast.Name) and kw.value.id in tables and kw.arg in names:
+                        out.setdefault(node.func.id, {}).setdefault(kw.arg, set()).add(kw.value.id)
+    return out
+
+
 def r17_3(chk, mod, nrows, ncolors):
     lens = {"_ELEMENT_DATA": nrows, "_EL_COLORS": ncolors}
+    derived = derived_tables(mod)
+    for name, (src, _) in derived.items():
+        lens[name] = lens[src]
+    tparams = table_params(mod, lens)
     consts = {f"len({t})": n for t, n in lens.items()}
     ninst = 0
     # class invariant for self.atomic_number: every Element(...) construction passes a guarded/table value
@@ -336,13 +380,17 @@ def r17_3(chk, mod, nrows, ncolors):
     for qual, fn in mod.funcs.items():
         ev = Ev(fn, mod.ctx).run()
         seen = set()
+        asparam = {p: sorted(ts)[0] for p, ts in tparams.get(qual, {}).items()}
+        for p in asparam:
+            consts[f"len({p})"] = lens[asparam[p]]
         for e in ev.events:
             for val in (e.value, e.target):
                 if val is None:
                     continue
-                for a in find_atoms(val, lambda a: a[0] == "sub" and a[1].key() in TABLES and len(a[2]) == 1):
+                for a in find_atoms(val, lambda a: a[0] == "sub" and isinstance(a[1], P) and (a[1].key() in lens or a[1].key() in asparam)
+                                    and len(a[2]) == 1):
                     idx = a[2][0]
-                    tab = a[1].key()
+                    tab = asparam.get(a[1].key(), a[1].key())
                     sig = (tab, idx.key(), tuple((c.key(), p) for c, p in e.guards))
                     if sig in seen:
                         continue
@@ -373,7 +421,7 @@ def r17_3(chk, mod, nrows, ncolors):
                            expected=f"a dominating guard implying 0 <= {idx} <= {lens[tab] - 1}",
                            found=f"implied bounds [{_b(lo)}, {_b(hi)}]" +
                                  (f"; unguarded constructor sites: {ctor_sites}" if inv_used and not ctor_ok else ""))
-    chk.need(ninst >= 6, f"expected >= 6 table subscripts in {MOD}, found {ninst}")
+    chk.need(ninst >= 3, f"expected >= 3 table subscripts in {MOD}, found {ninst}")
 
 
 def _b(x):
@@ -699,7 +747,7 @@ def r17_6(chk, mod):
 
 
 # ---------------------------------------------------------------------------------------------
-def r17_7(chk, mod, params):
+def r17_7(chk, mod, params, nrows=103):
     q = "chemical_formula"
     ev = mod.ev(q)
     chk.saw(MOD, q)
@@ -762,6 +810,31 @@ def r17_7(chk, mod, params):
                    found=f"own ordering by exchanging two slots of a sorted array ({swaps[0].target} = {str(swaps[0].value)[:60]}): the element that was first "
                          "lands behind larger atomic numbers")
             continue
+        # a tally by atomic number (np.bincount) walked in an explicit order: every atomic number of the table must be visited
+        tally = [e for e in ev2.events if e.value is not None and find_atoms(e.value, lambda a: a[0] == "call" and call_name(a) == "numpy.bincount")]
+        if tally:
+            spans, consts_seen = [], set()
+            for e in ev2.events:
+                if e.value is None:
+                    continue
+                for a in find_atoms(e.value, lambda a: a[0] == "call" and call_name(a) == "range" and 1 <= len(a[2]) <= 2):
+                    lo = a[2][0] if len(a[2]) == 2 else P.const(0)
+                    hi = a[2][-1]
+                    vals = []
+                    for t in (lo, hi):
+                        k = t.key().replace("len(chmpy.core.element._ELEMENT_DATA)", str(nrows)).replace("len(_ELEMENT_DATA)", str(nrows))
+                        try:
+                            vals.append(int(eval(k.replace(" ", ""), {"__builtins__": {}})))
+                        except Exception:
+                            vals.append(None)
+                    spans.append(tuple(vals))
+            if spans and all(v is not None for sp in spans for v in sp):
+                top = max(hi for _, hi in spans) - 1
+                low = min(lo for lo, _ in spans)
+                chk.ob("R17.7", rel, qq, "an own tally of the formula visits every atomic number of the element table (1 .. len(table)), so every atom is counted once",
+                       low <= 1 and top >= nrows, node=tally[0].node, fingerprint="formula-delegates",
+                       expected=f"atomic numbers 1..{nrows}", found=f"ranges {spans}: atomic numbers {max(low, 1)}..{top}")
+                continue
         raise AnalysisError(f"{rel}:{qq}: the formula is no longer delegated to chemical_formula(self.elements) and the replacement is not recognised")
     # column helpers
     col = {p: i for i, p in enumerate(params[1:])}
@@ -769,11 +842,15 @@ def r17_7(chk, mod, params):
         ev = mod.ev(q)
         chk.saw(MOD, q)
         cols = set()
+        derived = derived_tables(mod)
         for e in ev.returns:
             for a in find_atoms(e.value, lambda a: a[0] == "sub" and len(a[2]) == 1 and a[1].as_atom()
                                 and a[1].as_atom()[0] == "sub" and a[1].as_atom()[1].key() == "_ELEMENT_DATA"):
                 c = a[2][0].const_value()
                 cols.add(int(c) if c is not None else None)
+            # a per-column table built from the shipped table (NAME = [x[k] for x in _ELEMENT_DATA]) stands for column k
+            for a in find_atoms(e.value, lambda a: a[0] == "name" and a[1] in derived and derived[a[1]][0] == "_ELEMENT_DATA"):
+                cols.add(derived[a[1]][1])
         chk.ob("R17.7", MOD, q, f"{q} reads the {meaning} column of the table", cols == {col[meaning]},
                expected=col[meaning], found=sorted(cols, key=str))
     for q, attr in (("Element.vdw_radius", "vdw"), ("Element.covalent_radius", "cov")):
